@@ -66,6 +66,13 @@ def explore_only() -> Dict[str, List[Dict[str, Any]]]:
         # the other public entry points of a socket (silent, structured): the same channel operations
         "silent-entry-points": [dict(ep("A", "B", 0, False, c, s("a1"), s("a2"), ["recvnb", None]), api="silent"),
                                 dict(ep("B", "A", 0, False, c, ["recvnb", None], r, ["recvnb", None]), api="silent")],
+        # a callback endpoint switches its flag off, closes, and opens a plain socket with the same key: what the peer sends
+        # afterwards is queued for the new socket
+        "callback-socket-replaced-by-plain": [ep("A", "B", 0, False, c, s("a1"), s("a2")),
+                                              ep("B", "A", 0, True, c, ["cbflag", "off"], ["disconnect", None], ["connectp", None], ["recvnb", None], ["recvnb", None])],
+        # messages that end in the marker the communication log uses, on sockets with that log switched on
+        "comm-log-switched-on": [dict(ep("A", "B", 0, False, c, s("a1EOF"), s("EOF"), s("xEOFyEOF")), comm_log=True),
+                                 dict(ep("B", "A", 0, False, c, r, r, r), comm_log=True)],
         "structured-running-list": [dict(ep("A", "B", 0, False, c, s("a1"), s("a1+a2"), s("a1+a2+a3")), api="structured-running-list"),
                                     dict(ep("B", "A", 0, False, c, r, r, r), api="structured-running-list")],
         "structured-entry-points": [dict(ep("A", "B", 0, False, c, s("a1"), ["recvnb", None]), api="structured"),
@@ -154,6 +161,7 @@ def callbacks_first() -> bool:
 def run(prop: str, tier: str) -> int:
     V = C.Verdicts(prop, tier)
     tmp = C.tmpdir()
+    os.environ["VERIF_COMMLOG_DIR"] = tmp
     try:
         from . import sched
         lines = sched.shared_lines()
